@@ -189,6 +189,7 @@ func runC05(c *Ctx, r *Report) {
 	c05DefBeforeData(c, r)
 	encodeDefCovers(c, r, "C05-R5-def-before-data")
 	encodeProfileRows(c, r, "C05-R4-size-agreement")
+	encodeNoRowCopies(c, r, "C05-R4-size-agreement")
 	encodePrivateBuffer(c, r, "C05-R2-ordering")
 }
 
